@@ -14,7 +14,7 @@ for f in sorted(glob.glob(os.path.join(HERE, "evidence", "*.json"))):
 print()
 print("| seed | wave | change | result | deciding harness: obligation |")
 print("|---|---|---|---|---|")
-n = {1: [0, 0], 2: [0, 0]}
+n = {1: [0, 0], 2: [0, 0], 3: [0, 0]}
 for sid in sorted(os.listdir(os.path.join(HERE, "seeded"))):
     mp = os.path.join(HERE, "seeded", sid, "meta.json")
     if not os.path.exists(mp):
@@ -35,5 +35,5 @@ for sid in sorted(os.listdir(os.path.join(HERE, "seeded"))):
     extra = (" – " + m["first_pass"]) if m.get("first_pass") else ""
     print("| %s | %d | %s | %s%s | %s |" % (sid, w, m["change"][:110], res, extra, obl[:170]))
 print()
-for w in (1, 2):
+for w in (1, 2, 3):
     print("wave %d: %d of %d seeded changes caught" % (w, n[w][0], n[w][1]))
